@@ -269,6 +269,14 @@ impl<F: Float> GaussianMixtureModel<F> {
         for (k, covariance) in covariances.outer_iter().enumerate() {
             let sol = {
                 let decomp = covariance.cholesky()?;
+                // A pivot below the rounding error of its own computation is positive by accident only:
+                // the covariance is singular to working precision and has no meaningful inverse.
+                for j in 0..n_features {
+                    let pivot = decomp[[j, j]] * decomp[[j, j]];
+                    if pivot <= F::cast((n_features + 2) as f64) * F::epsilon() * covariance[[j, j]] {
+                        return Err(linfa_linalg::LinalgError::NotPositiveDefinite.into());
+                    }
+                }
                 decomp.solve_triangular_into(Array::eye(n_features), UPLO::Lower)?
             };
 
